@@ -137,7 +137,10 @@ Inductive case :=
 (* real sendLoop against a TCP listener that reset the connection: the write of a batch fails with nothing
    written; off = (first id that arrives on the new connection) - (first id of that batch): 0 = the packet
    whose write failed is retried, 1 = it is skipped; -1: the real-time scenario was inconclusive *)
-| CRetry (off : Z).
+| CRetry (off : Z)
+(* addressPool of n addresses 0..n-1 starting at head: the indices chosen by successive picks / by successive
+   tcpSender.reconnect() attempts (real dials to refusing ports) *)
+| CPicks (n head : Z) (obs : list Z).
 
 Definition cfg_eqb (a b : cfg) : bool := (cLen a =? cLen b) && (cThr a =? cThr b) && (cMax a =? cMax b).
 
@@ -165,6 +168,8 @@ Definition ok (c : case) : bool :=
                    | None => false
                    end in
       if t false then true else t true
+  | CPicks n head obs =>
+      list_eqb Z.eqb (picks (length obs) (mkAp (map Z.of_nat (seq 0 (Z.to_nat n))) (Z.to_nat head))) obs
   end.
 
 Definition mism := mismatches ok.
